@@ -59,7 +59,7 @@ def interp_refinement(ck, n, pid="C05", calibs=None, book_only=False):
     cases = []
     kw = {} if calibs is None else {"calibs": calibs}
     for _ in range(n):
-        c = gen.gen_solver_case(ck.rng, ck.tier, strats=("filter", "fixedinterval", "fixedpoint"), qmax=3 if ck.tier == "quick" else 5,
+        c = gen.gen_solver_case(ck.rng, ck.tier, strats=("filter", "fixedinterval", "fixedpoint"), qmax=3,
                                 max_steps=3, **kw)
         c["routine"] = "interp"
         grid = c["grid"]
